@@ -54,6 +54,7 @@ CONTROLS = {
          "op2->pt == op2->next->pt || preserve_collinear_ ||", "T.removal"),
     ],
     "C04": [
+        ("DoSplitOp does not record the split in tree mode", E, "          if (!outrec->splits) outrec->splits = new OutRecList();\n          outrec->splits->emplace_back(newOr);", "          if (!outrec->splits) outrec->splits = new OutRecList();", "SPLIT.recorded"),
         ("SetOwner links a record below its own descendant", E, "    while (tmp && tmp != outrec) tmp = tmp->owner;\n    if (tmp) new_owner->owner = outrec->owner;", "    while (tmp && tmp != outrec) tmp = tmp->owner;", "OWNER.reparent"),
         ('local minimum without a hot edge on its left keeps the owner it had', 'CPP/Clipper2Lib/src/clipper.engine.cpp', '      else\n      {\n        outrec->owner = nullptr;', '      else\n      {', 'OWNER.assigned'),
         ('tree builder caches the number of output records', 'CPP/Clipper2Lib/src/clipper.engine.cpp', '    for (size_t i = 0; i < outrec_list_.size(); ++i)\n    {\n      OutRec* outrec = outrec_list_[i];\n      if (!outrec || !outrec->pts) continue;\n      if (outrec->is_open)\n      {\n        Path64 path;', '    const size_t cnt = outrec_list_.size();\n    for (size_t i = 0; i < cnt; ++i)\n    {\n      OutRec* outrec = outrec_list_[i];\n      if (!outrec || !outrec->pts) continue;\n      if (outrec->is_open)\n      {\n        Path64 path;', 'LOOP.bound-live'),
@@ -78,6 +79,7 @@ CONTROLS = {
         ("closing vertex compared with the first vertex of the first path", E, "if (!is_open && prev_v->pt == v0->pt)", "if (!is_open && prev_v->pt == vertices->pt)", "ADD.closing-vertex"),
     ],
     "C06": [
+        ("the miter threshold is stored one too low", O, "\t\t\t2.0 / (miter_limit_ * miter_limit_);", "\t\t\t2.0 / (miter_limit_ * miter_limit_) - 1.0;", "JOIN.dispatch"),
         ("the PolyTree overload of ClipperOffset::Execute keeps the caller's old tree", O, "\tpolytree.Clear();\n\tsolution_tree = &polytree;", "\tsolution_tree = &polytree;", "OUTPUT.reset"),
         ('polygon offsetting consults the raw delta', 'CPP/Clipper2Lib/src/clipper.offset.cpp', 'void ClipperOffset::OffsetPolygon(Group& group, const Path64& path)\n{\n\tpath_out.clear();', 'void ClipperOffset::OffsetPolygon(Group& group, const Path64& path)\n{\n\tpath_out.clear();\n\tif (delta_ < 0 && path.size() < 3) return;', 'OFFSET.sign'),
         ('square join pushed out by the signed delta in y', 'CPP/Clipper2Lib/src/clipper.offset.cpp', '\tptQ = TranslatePoint(ptQ, abs_delta * vec.x, abs_delta * vec.y);', '\tptQ = TranslatePoint(ptQ, abs_delta * vec.x, group_delta_ * vec.y);', 'POLY.offset'),
@@ -94,6 +96,7 @@ CONTROLS = {
         ("Paths64 Execute no longer clears the tree target", O, "\tsolution = &paths64;\n\tsolution_tree = nullptr;", "\tsolution = &paths64;", "TARGET.set"),
     ],
     "C19": [
+        ("Point::operator+ adds the x twice", H + "clipper.core.h", "      return Point(x + b.x, y + b.y);", "      return Point(x + b.x, y + b.x);", "MINK.point-ops"),
         ("a triangle pattern is swept over two of its three vertices", H + "clipper.minkowski.h", "        for (size_t j = 0; j < patLen; j++)", "        for (size_t j = 0; j < (patLen == 3 ? 2 : patLen); j++)", "MINK.closing-edge"),
         ('the union helper keeps its clipper between calls', 'CPP/Clipper2Lib/include/clipper2/clipper.minkowski.h', '      Paths64 result;\n      Clipper64 clipper;\n      clipper.AddSubject(subjects);', '      Paths64 result;\n      static Clipper64 clipper;\n      clipper.AddSubject(subjects);', 'MINK.union'),
         ('degenerate quads skipped before the previous pattern index is advanced', 'CPP/Clipper2Lib/include/clipper2/clipper.minkowski.h', '          if (!IsPositive(quad))\n            std::reverse(quad.begin(), quad.end());', '          if (quad[0] == quad[2]) continue;\n          if (!IsPositive(quad))\n            std::reverse(quad.begin(), quad.end());', 'MINK.quad'),
@@ -127,6 +130,7 @@ CONTROLS = {
          "      for (OutPt2List &edge : edges_) edge.clear();\n    }\n    return result;", "LOOP"),
     ],
     "C09": [
+        ("a first vertex on the boundary always starts the line scan on its side", R, "      if (prev == Location::Inside) loc = Location::Inside;\n      i = 1;", "      i = 1;", "START.location"),
         ("a point's y is compared with the right side", 'CPP/Clipper2Lib/src/clipper.rectclip.cpp', '    else if (pt.y == rec.top && pt.x >= rec.left && pt.x <= rec.right)', '    else if (pt.y == rec.right && pt.x >= rec.left && pt.x <= rec.right)', 'T.location'),
         ('touching case of the second end point stores the first', 'CPP/Clipper2Lib/src/clipper.rectclip.cpp', '    else if (res2 == 0)\n    {\n      ip = p2;', '    else if (res2 == 0)\n    {\n      ip = p1;', 'POLY.intersect'),
         ("segment scan starts where the pre-scan stopped", R, "      if (prev == Location::Inside) loc = Location::Inside;\n      i = 1;", "      if (prev == Location::Inside) loc = Location::Inside;", "SCAN.start"),
@@ -227,6 +231,7 @@ CONTROLS = {
          "  ClipperOffset clip_offset( miter_limit,\n    arc_tolerance, false, reverse_solution);", "  ClipperOffset clip_offset( miter_limit,\n    arc_tolerance, reverse_solution);", "FORWARD.param"),
     ],
     "C18": [
+        ("IsCollinear answers early for a horizontal first edge", H + "clipper.core.h", "    const auto d = pt2.x - sharedPt.x;\n", "    const auto d = pt2.x - sharedPt.x;\n    if (c == 0 && a != 0) return b == 0 && d != 0;\n", "POLY.cross"),
         ("PointInOpPolygon skips edges whose ends are not left of the point", E, "      if (pt.x < op2->pt.x && pt.x < op2->prev->pt.x);", "      if (pt.x <= op2->pt.x && pt.x <= op2->prev->pt.x);", "PIP.on-edge"),
         ('closing edge of PointInPolygon no longer reports IsOn', 'CPP/Clipper2Lib/include/clipper2/clipper.core.h', '      else prev = curr - 1;\n      double d = CrossProduct(*prev, *curr, pt);\n      if (d == 0) return PointInPolygonResult::IsOn;\n      if ((d < 0) == is_above) val = 1 - val;', '      else prev = curr - 1;\n      if ((CrossProduct(*prev, *curr, pt) < 0) == is_above) val = 1 - val;', 'PIP.on-edge'),
         ('parallel segments detected with a tolerance', 'CPP/Clipper2Lib/include/clipper2/clipper.core.h', '    double det = dy1 * dx2 - dy2 * dx1;\n    if (det == 0.0) return false;', '    double det = dy1 * dx2 - dy2 * dx1;\n    if (std::fabs(det) < 1e-9) return false;', 'POLY.intersect'),
